@@ -10,6 +10,11 @@
 //	      plus all histories up to a depth), every transition re-executed from scratch on a real
 //	      AuthenticationHandler + authorization service + session service (fake time, testing/synctest), followed by
 //	      a request with every header / cookie form of the family
+//	cpw   bounded SetPassword / CompareAndSetPassword / ComparePassword histories through the real v1
+//	      CachingPasswordsService wrapped around the real tenant password service (cache hits and misses)
+//	csched every schedule with a bounded number of preemptions (vsched engine; shim.json models the cache's RWMutex) of
+//	      one password change racing with 1..2 ComparePassword calls on the real CachingPasswordsService around a fast
+//	      inner password model whose calls are hook points; judged after every thread has finished
 package c44
 
 import (
@@ -19,6 +24,7 @@ import (
 	"crypto/sha512"
 	"encoding/base64"
 	"encoding/json"
+	"errors"
 	"fmt"
 	"net/http"
 	"net/http/httptest"
@@ -38,8 +44,10 @@ import (
 	kithttp "github.com/influxdata/influxdb/v2/kit/transport/http"
 	"github.com/influxdata/influxdb/v2/kv/migration/all"
 	algo "github.com/influxdata/influxdb/v2/pkg/crypt/algorithm/influxdb2"
+	"github.com/influxdata/influxdb/v2/pkg/verifrt/vrt"
 	"github.com/influxdata/influxdb/v2/session"
 	"github.com/influxdata/influxdb/v2/tenant"
+	authv1 "github.com/influxdata/influxdb/v2/v1/authorization"
 	"go.uber.org/zap"
 	"verif/h/vlib"
 )
@@ -86,6 +94,10 @@ type Case struct {
 	Hash *HashCase `json:"hash,omitempty"`
 	// http
 	Fam *Family `json:"family,omitempty"`
+	// csched
+	Sched   *SchedCase `json:"sched,omitempty"`
+	Choices []int      `json:"choices,omitempty"`
+	Trace   []string   `json:"trace,omitempty"`
 }
 
 func newTenant() (*inmem.KVStore, *tenant.Service, error) {
@@ -118,6 +130,7 @@ var pwVal = map[string]string{
 	"N":  "Pa55word-Alpha\x00Pa55word-Alpha", // A, a NUL byte, A again
 	"Lb": long72[:71] + "Z",                  // 72 bytes, differs from L in the last byte only
 	"Ax": "Pa55word-Alpha" + "\x00",          // A plus a trailing NUL
+	"W":  "Pa55word-Whisky",                  // valid, never set (parts cpw / csched)
 }
 
 func pwRel(q string, cur *string, others []string) string {
@@ -293,6 +306,386 @@ func histories(ops []string, depth int, visit func([]string) bool) {
 			}
 		}
 	}
+}
+
+// ---------------------------------------------------------------------------------------------------------
+// part cpw: sequential histories over the real v1 CachingPasswordsService wrapped around the real tenant
+// password service (bcrypt). History ops "set:P", "cas:OLD:NEW", "cmp:Q" all go through the caching service;
+// the password A is set beforehand directly on the inner service (cache empty). Reference: cur = the password
+// of the last accepted set / compare-and-set; every ComparePassword of the history and of the final probe
+// round (every non-current password first, the current one last) must succeed iff q == cur.
+
+func runCpw(ops, probe []string) (res runResult) {
+	ctx := context.Background()
+	w, err := newPwWorld(1)
+	if err != nil {
+		res.err = err
+		return
+	}
+	uid := w.users[0]
+	start := pwVal["A"]
+	if err := w.svc.SetPassword(ctx, uid, start); err != nil {
+		res.err = fmt.Errorf("initial SetPassword: %w", err)
+		return
+	}
+	svc := authv1.NewCachingPasswordsService(w.svc)
+	cur := start
+	everSet := []string{start}
+	verified := map[string]bool{} // passwords an earlier ComparePassword of this history accepted (candidates for a stale cache entry)
+	cached := "(none)"            // what a correct cache may hold: the password of the last accepted compare since the last change
+	compare := func(when, ql string) {
+		q := pwVal[ql]
+		got := svc.ComparePassword(ctx, uid, q) == nil
+		want := q == cur
+		rel := "current"
+		if !want {
+			rel = "never-set"
+			for _, o := range everSet {
+				if o == q {
+					rel = "replaced-password"
+				}
+			}
+		}
+		hit := "miss"
+		if cached == q {
+			hit = "hit"
+		}
+		res.outcomes = append(res.outcomes, fmt.Sprintf("cpw:compare/%v/%s/model-cache=%s", got, rel, hit))
+		if got && !want {
+			res.v(vlib.JoinSig("cpw", "CachingPasswordsService.ComparePassword", "accepts-noncurrent", "q="+rel, fmt.Sprintf("q-accepted-by-an-earlier-compare=%v", verified[q])),
+				"%s of %v: ComparePassword(%s) through the caching service succeeded although the current password is %s", when, ops, showp(&q), showp(&cur))
+		}
+		if !got && want {
+			res.v(vlib.JoinSig("cpw", "CachingPasswordsService.ComparePassword", "rejects-current", "model-cache="+hit),
+				"%s of %v: ComparePassword(%s) through the caching service failed although it is the password most recently set", when, ops, showp(&q))
+		}
+		if got {
+			verified[q] = true
+			if want {
+				cached = q
+			}
+		}
+	}
+	for step, op := range ops {
+		f := strings.Split(op, ":")
+		when := fmt.Sprintf("step %d (%s)", step, op)
+		switch f[0] {
+		case "set":
+			p := pwVal[f[1]]
+			if err := svc.SetPassword(ctx, uid, p); err == nil {
+				cur, cached = p, "(none)"
+				everSet = append(everSet, p)
+				res.outcomes = append(res.outcomes, "cpw:set/accepted")
+			} else {
+				res.outcomes = append(res.outcomes, "cpw:set/rejected")
+			}
+		case "cas":
+			old, nw := pwVal[f[1]], pwVal[f[2]]
+			want := old == cur
+			err := svc.CompareAndSetPassword(ctx, uid, old, nw)
+			res.outcomes = append(res.outcomes, fmt.Sprintf("cpw:cas/accepted=%v/old-is-current=%v", err == nil, want))
+			if err == nil {
+				if !want {
+					res.v(vlib.JoinSig("cpw", "CachingPasswordsService.CompareAndSetPassword", "accepted-noncurrent-old"),
+						"%s of %v: CompareAndSetPassword accepted old password %s although the current password is %s", when, ops, showp(&old), showp(&cur))
+				}
+				cur, cached = nw, "(none)"
+				everSet = append(everSet, nw)
+			}
+		case "cmp":
+			compare(when, f[1])
+		}
+	}
+	// final probes: every non-current password first (a stale cache entry would answer), the current one last
+	for _, ql := range probe {
+		if pwVal[ql] != cur {
+			compare("final probe after the history", ql)
+		}
+	}
+	for _, ql := range probe {
+		if pwVal[ql] == cur {
+			compare("final probe after the history", ql)
+		}
+	}
+	res.nontriv = true
+	res.state = "cpw|" + showp(&cur) + "|model-cache=" + cached
+	if cached != "(none)" {
+		res.state = "cpw|" + showp(&cur) + "|model-cache=" + showp(&cached)
+	}
+	return
+}
+
+// ---------------------------------------------------------------------------------------------------------
+// part csched: schedule exploration (vsched) of the real CachingPasswordsService (its RWMutex is modelled: every
+// Lock/RLock is a scheduling point) around a fast deterministic inner PasswordsService whose calls are bracketed
+// by hook points, so that the window in which a password change is in flight is a scheduling point as well.
+
+// SchedCase: one password change racing with 1..3 ComparePassword calls, one thread each.
+type SchedCase struct {
+	Change string   `json:"change"` // set | cas | cas-wrong-old  (old password O → new password N)
+	Cmps   []string `json:"cmps"`   // per comparer thread: "old" | "new"
+	Warm   bool     `json:"warm"`   // the cache holds the old password when the threads start
+	Bound  int      `json:"bound"`  // preemption bound
+}
+
+func (sc SchedCase) String() string {
+	return fmt.Sprintf("change=%s cmps=%v warm-cache=%v", sc.Change, sc.Cmps, sc.Warm)
+}
+
+var errIncorrect = errors.New("incorrect password")
+
+// fastPw is the reference inner service: the stored password per id, nothing else.
+type fastPw struct{ pw map[platform.ID]string }
+
+func (f *fastPw) SetPassword(_ context.Context, id platform.ID, p string) error {
+	f.pw[id] = p
+	return nil
+}
+func (f *fastPw) ComparePassword(_ context.Context, id platform.ID, p string) error {
+	if cur, ok := f.pw[id]; !ok || cur != p {
+		return errIncorrect
+	}
+	return nil
+}
+func (f *fastPw) CompareAndSetPassword(ctx context.Context, id platform.ID, old, nw string) error {
+	if err := f.ComparePassword(ctx, id, old); err != nil {
+		return err
+	}
+	f.pw[id] = nw
+	return nil
+}
+
+type thrKey struct{}
+
+type schedObs struct {
+	clk int
+	ev  []string
+}
+
+func (o *schedObs) tick(ctx context.Context, what string) int {
+	o.clk++
+	who, _ := ctx.Value(thrKey{}).(string)
+	o.ev = append(o.ev, fmt.Sprintf("%d %s: %s", o.clk, who, what))
+	return o.clk
+}
+
+// hookedInner delegates to the model with a hook point before and after every effect (compare-and-set is a compare
+// followed by a store, as in tenant.UserSvc.CompareAndSetPassword).
+type hookedInner struct {
+	m *fastPw
+	o *schedObs
+}
+
+func errs(err error) string {
+	if err == nil {
+		return "ok"
+	}
+	return "error"
+}
+
+func okS(ok bool) string {
+	if ok {
+		return "ok"
+	}
+	return "error"
+}
+
+func (h *hookedInner) SetPassword(ctx context.Context, id platform.ID, p string) error {
+	vrt.Hook("inner.SetPassword:enter")
+	err := h.m.SetPassword(ctx, id, p)
+	h.o.tick(ctx, "inner stores the new password")
+	vrt.Hook("inner.SetPassword:exit")
+	return err
+}
+
+func (h *hookedInner) ComparePassword(ctx context.Context, id platform.ID, p string) error {
+	vrt.Hook("inner.ComparePassword:enter")
+	err := h.m.ComparePassword(ctx, id, p)
+	h.o.tick(ctx, "inner compares → "+errs(err))
+	vrt.Hook("inner.ComparePassword:exit")
+	return err
+}
+
+func (h *hookedInner) CompareAndSetPassword(ctx context.Context, id platform.ID, old, nw string) error {
+	vrt.Hook("inner.CompareAndSetPassword:enter")
+	err := h.m.ComparePassword(ctx, id, old)
+	h.o.tick(ctx, "inner compares the old password → "+errs(err))
+	if err == nil {
+		vrt.Hook("inner.CompareAndSetPassword:compared")
+		err = h.m.SetPassword(ctx, id, nw)
+		h.o.tick(ctx, "inner stores the new password")
+	}
+	vrt.Hook("inner.CompareAndSetPassword:exit")
+	return err
+}
+
+const schedUID = platform.ID(7)
+
+func schedHarness(sc SchedCase) *vrt.Harness {
+	return &vrt.Harness{Name: sc.String(), Body: func(x *vrt.Exec) {
+		oldP, newP, wrongP := pwVal["A"], pwVal["B"], pwVal["W"]
+		o := &schedObs{}
+		model := &fastPw{pw: map[platform.ID]string{schedUID: oldP}}
+		svc := authv1.NewCachingPasswordsService(&hookedInner{m: model, o: o})
+		if sc.Warm {
+			if err := svc.ComparePassword(context.Background(), schedUID, oldP); err != nil {
+				x.Fail("csched/harness", "warm-up compare failed")
+				return
+			}
+			o.ev, o.clk = nil, 0
+		}
+		type call struct {
+			pw       string
+			inv, ret int
+			ok       bool
+		}
+		var chg call
+		cmps := make([]call, len(sc.Cmps))
+		x.Go("change:"+sc.Change, func() {
+			ctx := context.WithValue(context.Background(), thrKey{}, "change")
+			var err error
+			switch sc.Change {
+			case "set":
+				chg.inv = o.tick(ctx, "SetPassword(new) called")
+				err = svc.SetPassword(ctx, schedUID, newP)
+			case "cas":
+				chg.inv = o.tick(ctx, "CompareAndSetPassword(old,new) called")
+				err = svc.CompareAndSetPassword(ctx, schedUID, oldP, newP)
+			default:
+				chg.inv = o.tick(ctx, "CompareAndSetPassword(wrong,new) called")
+				err = svc.CompareAndSetPassword(ctx, schedUID, wrongP, newP)
+			}
+			chg.ok = err == nil
+			chg.ret = o.tick(ctx, "change returned "+errs(err))
+		})
+		for i, which := range sc.Cmps {
+			name := fmt.Sprintf("cmp%d", i)
+			cmps[i].pw = which
+			x.Go(name+":"+which, func() {
+				ctx := context.WithValue(context.Background(), thrKey{}, name)
+				p := oldP
+				if which == "new" {
+					p = newP
+				}
+				cmps[i].inv = o.tick(ctx, "ComparePassword("+which+") called")
+				err := svc.ComparePassword(ctx, schedUID, p)
+				cmps[i].ok = err == nil
+				cmps[i].ret = o.tick(ctx, "ComparePassword("+which+") returned "+errs(err))
+			})
+		}
+		x.S.MaxSteps = 2000
+		x.Run()
+		x.S.Drain()
+		if x.S.Deadlock || x.S.StepCap {
+			x.Fail(vlib.JoinSig("csched", "deadlock-or-livelock"), fmt.Sprintf("%s: deadlock=%v blocked=%v step-cap=%v", sc, x.S.Deadlock, x.S.Blocked, x.S.StepCap))
+			return
+		}
+		// the change has been acknowledged and every thread has finished: judge against the inner store
+		cur := model.pw[schedUID]
+		curL, repl, replL := "new", oldP, "old"
+		if cur == oldP {
+			curL, repl, replL = "old", newP, "new"
+		}
+		overlap := false
+		var thr []string
+		acceptedRepl, inFlight := 0, 0
+		for _, cm := range cmps {
+			overlap = overlap || (cm.inv < chg.ret && cm.ret > chg.inv)
+			thr = append(thr, cm.pw+"="+okS(cm.ok))
+			if cm.ok && cm.pw == replL {
+				acceptedRepl++
+				if cm.ret > chg.ret {
+					inFlight++
+				}
+			}
+		}
+		sort.Strings(thr)
+		ctx := context.WithValue(context.Background(), thrKey{}, "after")
+		p1 := svc.ComparePassword(ctx, schedUID, repl) == nil
+		p2 := svc.ComparePassword(ctx, schedUID, cur) == nil
+		p3 := svc.ComparePassword(ctx, schedUID, repl) == nil
+		hist := strings.Join(o.ev, "; ")
+		feature := "no-concurrent-compare-accepted-it"
+		switch {
+		case inFlight > 0:
+			feature = "an-accepting-compare-returned-after-the-acknowledgement"
+		case acceptedRepl > 0:
+			feature = "every-accepting-compare-returned-before-the-acknowledgement"
+		}
+		if p1 {
+			x.Fail(vlib.JoinSig("csched", "CachingPasswordsService.ComparePassword", "accepts-noncurrent-after-change-acknowledged", feature),
+				fmt.Sprintf("%s: after every thread finished the stored password is the %s one, but ComparePassword(%s password) through the caching service succeeds. events: %s", sc, curL, replL, hist))
+		}
+		if !p2 {
+			x.Fail(vlib.JoinSig("csched", "CachingPasswordsService.ComparePassword", "rejects-current-after-change-acknowledged"),
+				fmt.Sprintf("%s: after every thread finished the stored password is the %s one, but ComparePassword of it fails. events: %s", sc, curL, hist))
+		}
+		if p3 && !p1 {
+			x.Fail(vlib.JoinSig("csched", "CachingPasswordsService.ComparePassword", "accepts-noncurrent-after-current-verified"),
+				fmt.Sprintf("%s: ComparePassword(%s password) succeeds after the current password was verified. events: %s", sc, replL, hist))
+		}
+		nt := ""
+		if overlap {
+			nt = "overlap "
+		}
+		x.Outcome = fmt.Sprintf("%schange=%s→%s during:[%s] after: current-accepted=%v replaced-accepted=%v", nt, sc.Change, okS(chg.ok), strings.Join(thr, ","), p2, p1 || p3)
+	}}
+}
+
+func schedCases(thorough bool) []SchedCase {
+	var out []SchedCase
+	cmpSets := [][]string{{"old"}, {"new"}, {"old", "old"}, {"old", "new"}, {"new", "new"}}
+	bound := 2
+	if thorough {
+		bound = 3
+		cmpSets = append(cmpSets, []string{"old", "old", "new"}, []string{"old", "new", "new"})
+	}
+	for _, cs := range cmpSets {
+		for _, ch := range []string{"set", "cas", "cas-wrong-old"} {
+			for _, warm := range []bool{false, true} {
+				out = append(out, SchedCase{Change: ch, Cmps: cs, Warm: warm, Bound: bound})
+			}
+		}
+	}
+	return out
+}
+
+// runSched explores one scenario; returns false when the budget expired.
+func runSched(c *vlib.Ctx, sc SchedCase) bool {
+	h := schedHarness(sc)
+	st := vrt.Explore(c.T, h, sc.Bound, 0, 1, c.Expired, func(r *vrt.Result) {
+		c.Eval(1)
+		if r.Diverged != "" {
+			c.HarnessError(sc.String() + ": " + r.Diverged)
+			return
+		}
+		if strings.HasPrefix(r.Outcome, "overlap ") {
+			c.NontrivialN(1)
+		}
+		for _, f := range r.Failures {
+			if f.Sig == "csched/harness" {
+				c.HarnessError(sc.String() + ": " + f.Msg)
+				continue
+			}
+			cs := Case{Part: "csched", Sig: f.Sig, Sched: &sc, Choices: r.Choices}
+			for _, s := range r.Steps {
+				cs.Trace = append(cs.Trace, fmt.Sprintf("T%d %s", s.Thread, s.Label))
+			}
+			c.Violation(f.Sig, f.Msg, cs)
+		}
+		if len(r.Failures) > 0 {
+			c.Outcome("csched:violation")
+			return
+		}
+		c.Outcome("csched:" + strings.TrimPrefix(r.Outcome, "overlap "))
+		if c.WantSample() && r.Preempts == sc.Bound {
+			c.Sample(map[string]any{"scenario": sc.String(), "schedule": r.Choices, "preemptions": r.Preempts, "outcome": r.Outcome})
+		}
+	})
+	c.StateN(st.Nodes)
+	c.Transition(st.Transitions)
+	c.Trace(st.Executions)
+	return st.Complete
 }
 
 // ---------------------------------------------------------------------------------------------------------
@@ -1215,6 +1608,8 @@ func runCase(t *testing.T, cs Case) runResult {
 	switch cs.Part {
 	case "pw":
 		return runPw(cs.Users, cs.Ops, cs.Probe)
+	case "cpw":
+		return runCpw(cs.Ops, cs.Probe)
 	case "hash":
 		return runHash(*cs.Hash)
 	case "http":
@@ -1266,6 +1661,8 @@ func TestCheck(t *testing.T) {
 		Rule: "pw: every history of SetPassword(p)/CompareAndSetPassword(old,new) on the real tenant user service (inmem KV, bcrypt at its fixed cost) followed by ComparePassword(user, q) for every user and probe password q — quick: length ≤2 over 12 ops (set p∈{A,B,72-byte L,73-byte L+x}; cas old∈{A,B,L,L+x} new∈{A,B}), probes {A,B,L,L+x,prefix-of-A,A+NUL+A}; thorough: length ≤2 over 24 ops (adds empty, 7-byte, prefix-of-A, new=L) with 9 probes, length ≤2 over 2 users × 12 ops, length 3 over 10 ops. " +
 			"hash: every (p,q) of 13 words × {sha256,sha512} × decoder set {all, own variant only, other variant only} through AuthorizationHasher.Hash/Match (repo-encoded and hand-encoded stored form), and every (p,q) of 7 (quick) / 13 (thorough) words × stored mode × lookup mode ∈ {raw,sha256,sha512} through a real authorization store (create, reopen, FindAuthorizationByToken). " +
 			"http: model-driven BFS to closure over (token never/active/inactive/deleted × stored form, user active/inactive, session none/minutes remaining [without,with renewal]/gone, store mode) with ops {create/deactivate/activate/delete token, (de)activate user, create session, sign out, cookie request, advance the fake clock, restart the authorization store in mode raw/sha256/sha512} — quick families: 1 token × 3 modes; 1 token + 1 session, clock step 3 min, renewal on / off; thorough adds 2 tokens × 3 modes, initial mode sha512, clock steps {1,3,6} min renewal on/off, 2 users + 2 tokens + 1 session, 2 users + 2 sessions renewal on/off; plus every enabled history of length ≤4 (quick) / ≤5 or ≤4 (thorough). Every edge re-executes its history from scratch on real services (tenant, authorization store+service, session service on the inmem session store, http.AuthenticationHandler; fake time) and then sends every request form of the family (≈30 per token, ≈8 per session: schemes Token/Bearer/case variants/Basic/none/malformed, truncated/extended/upper-cased/padded token, PHC hash of the token, forged JWTs, session key as token, cookie near-misses, header+cookie mixes), judging status and authenticated identity. " +
+			"cpw: every history of length ≤3 (thorough ≤4) over {SetPassword A|B, CompareAndSetPassword A→B|B→A, ComparePassword A|B|W(never set)} through the real v1 CachingPasswordsService (v1/authorization/caching_password_service.go) wrapped around the real tenant password service whose password was set to A beforehand (cache empty); every ComparePassword of the history and of a final probe round (every non-current password of {A,B,W} first, the current one last) must succeed iff its password is the one most recently set (covers cache miss, cache hit with the right / a wrong password, invalidation by an accepted change, no change on a rejected compare-and-set). " +
+			"csched (vsched engine, the cache's RWMutex operations of the real CachingPasswordsService are modelled scheduling points; inner service = a deterministic in-memory password model wrapped by a harness type that puts a hook point before and after every inner effect, compare-and-set = compare, hook point, store): threads {one password change old→new ∈ {SetPassword, CompareAndSetPassword(old,new), CompareAndSetPassword(wrong,new) (rejected)}} ∪ {1..2 (thorough 1..3) threads each calling ComparePassword(old|new) once}, cache initially empty / holding the old password: 30 scenarios (thorough 42), every schedule with ≤2 (thorough ≤3) preemptions; oracle: the answers of the overlapping compares are unconstrained, but after every thread has finished (the change is acknowledged) ComparePassword(non-current) must fail, ComparePassword(current = what the inner store holds) must succeed and ComparePassword(non-current) must fail again; violation classes distinguish whether a concurrent compare that accepted the replaced password returned before or after the change was acknowledged. " +
 			"non-trivial = a history after which at least one credential (password, token or session) exists or existed; states = distinct model states reached by a validated history; transitions = ops executed on the real services; traces = histories validated",
 		Assumptions: []string{
 			"'authenticated' = the request reaches the handler behind AuthenticationHandler AND that handler obtains a permission set from the authorizer on the context (Authorization.PermissionSet / Session.PermissionSet), which is where the repo rejects inactive tokens (property mechanism auth.go:107); the middleware alone lets an inactive token through",
@@ -1273,8 +1670,9 @@ func TestCheck(t *testing.T) {
 			"session expiry: demanded-valid while strictly inside creation+length, allowed-valid up to the latest expiry any renewal could have produced; the exact expiry instant and white-space padded tokens are unconstrained; time resolution 1 minute",
 			"an op that returns an error where the statement is silent makes the affected credential unconstrained from then on (reported as outcome http:op-returned-error)",
 			"bcrypt cost is fixed in the repo (DefaultCost), so password histories are bounded to depth 3",
+			"csched explores the caching service around a fast password model, not around bcrypt/KV (the in-flight window of the real inner service is represented by the hook points before/after each inner effect); the real tenant service is used under the cache in the sequential part cpw; non-trivial csched execution = at least one compare overlaps the change",
 		},
-		QuickBudgetS: 45, ThoroughBudgetS: 780,
+		QuickBudgetS: 55, ThoroughBudgetS: 780, WorkerEnv: []string{"GOMAXPROCS=1"},
 		Run: func(c *vlib.Ctx) {
 			if influxdb.RenewSessionTime != renewMin*time.Minute {
 				c.HarnessError("RenewSessionTime changed; the model constant renewMin must follow")
@@ -1362,6 +1760,36 @@ func TestCheck(t *testing.T) {
 					return do(Case{Part: "pw", Users: 1, Ops: h, Probe: probeQ})
 				})
 			}
+			// ---- cpw (bcrypt-bound): the caching service around the real tenant password service
+			cpwOps := []string{"set:A", "set:B", "cas:A:B", "cas:B:A", "cmp:A", "cmp:B", "cmp:W"}
+			cpwDepth := 3
+			if c.Thorough() {
+				cpwDepth = 4
+			}
+			histories(cpwOps, cpwDepth, func(h []string) bool {
+				return do(Case{Part: "cpw", Ops: h, Probe: []string{"A", "B", "W"}})
+			})
+			// ---- csched: schedules of the caching service
+			for _, sc := range schedCases(c.Thorough()) {
+				idx++
+				if countOnly {
+					counts["csched"]++
+					continue
+				}
+				if !c.Mine(idx) {
+					continue
+				}
+				if c.Expired() || !runSched(c, sc) {
+					if !capped {
+						c.Cap("time budget reached in part csched")
+						capped = true
+					}
+					break
+				}
+			}
+			if c.Shard == 0 {
+				c.Extra("csched_scenarios", int64(len(schedCases(c.Thorough()))))
+			}
 			// ---- http
 			bfs, deep := families(c.Thorough())
 			for i := range bfs {
@@ -1389,6 +1817,22 @@ func TestCheck(t *testing.T) {
 			var cs Case
 			if err := json.Unmarshal(raw, &cs); err != nil {
 				return false, err.Error()
+			}
+			if cs.Part == "csched" {
+				if cs.Sched == nil {
+					return false, "csched case without scenario"
+				}
+				r := vrt.RunOnce(c.T, schedHarness(*cs.Sched), cs.Choices)
+				if r.Diverged != "" {
+					return false, "diverged: " + r.Diverged
+				}
+				var lines []string
+				for _, f := range r.Failures {
+					if cs.Sig == "" || f.Sig == cs.Sig {
+						lines = append(lines, f.Sig+": "+f.Msg)
+					}
+				}
+				return len(lines) > 0, fmt.Sprintf("outcome %s; %d violation(s) of the recorded class\n%s", r.Outcome, len(lines), strings.Join(lines, "\n"))
 			}
 			var res runResult
 			if p, d := vlib.Guard(func() { res = runCase(c.T, cs) }); p {
